@@ -8,10 +8,31 @@ from vf.engine import AND, OR, NOT, SymBool, SymInt
 from vf.symty import symlen
 
 
+def ob_eq(x, y):
+    return AND(x.name == y.name, getattr(x, 'z', 0) == getattr(y, 'z', 0))
+
+
 def teq(a, b):
-    """type equality as bool / SymBool (never forks in Mode B)"""
-    r = (a == b)
-    return r
+    """type equality as bool / SymBool; never forks a path"""
+    from vf import symty
+    st = symty._cls.get('c')
+    if st is not None and (isinstance(a, st) or isinstance(b, st)):
+        return a == b
+    oa, ob = getattr(a, '_objects', None), getattr(b, '_objects', None)
+    if oa is None or ob is None:
+        if oa is None and ob is None and hasattr(a, 'name') \
+                and hasattr(b, 'name'):
+            return ob_eq(a, b)
+        return a == b
+    if len(oa) != len(ob):
+        return False
+    for x, y in zip(oa, ob):
+        # biclosed Over/Under objects: structural
+        if hasattr(x, 'left') or hasattr(y, 'left'):
+            if not (x == y):
+                return False
+    return AND(*[ob_eq(x, y) for x, y in zip(oa, ob)
+                 if not (hasattr(x, 'left') or hasattr(y, 'left'))])
 
 
 def welltyped(d, check_layers=True):
